@@ -733,7 +733,7 @@ impl Prop for Shape {
     fn floors(&self) -> Vec<(&'static str, u64, u64)> {
         match self.0 {
             Which::Titles => vec![("hit with span", 2000, 20000), ("hit whose title needed composition", 50, 500), ("hit with expanding letter", 50, 500), ("hit whose title has NUL", 30, 300), ("hit whose title contains marker text", 50, 500), ("bridge searches with hits", 200, 2000), ("empty-query searches", 100, 1000), ("stores of 70-150 records with one very long title", 100, 5000)],
-            Which::Related => vec![("hit with fuzzy span", 200, 2000), ("hit with joined-record spans", 20, 200), ("exact-prefix case", 2000, 20000), ("exact-prefix ending inside an expanded letter", 5, 50), ("corpus-store searches", 300, 8000), ("corpus-store searches with more than 8 query words", 50, 1200), ("big-catalogue searches", 100, 1000), ("session searches on one store", 1000000, 6000000), ("session hits judged", 100000, 600000)],
+            Which::Related => vec![("hit with fuzzy span", 200, 2000), ("hit with joined-record spans", 20, 200), ("exact-prefix case", 2000, 20000), ("exact-prefix ending inside an expanded letter", 5, 50), ("corpus-store searches", 300, 8000), ("corpus-store searches with more than 8 query words", 50, 1200), ("big-catalogue searches", 100, 1000), ("session searches on one store", 600000, 4000000), ("session hits judged", 60000, 400000)],
             Which::Markup => vec![("hit with 2+ spans", 500, 5000), ("joined-record split (more spans than query words)", 20, 200), ("hit of separator-only query", 200, 2000), ("span in title with padding", 30, 300), ("joined-with-typos hits with 2+ spans and typos", 2000, 100000), ("stores with opening and closing markers of different lengths", 1000, 10000)],
         }
     }
